@@ -172,11 +172,13 @@ def run(ctx):
     R = Raises(prog, Config(env=True, stop_at=[CONNECT]))
     data = Val(taint=True, kind="bytes")
     seen = set()
-    for q, args, label in ((DG, {"data": data, "addr": Val(kind="list")}, "datagram_received"),
-                           (GETDEV, {"data": data, "ip": Val(kind="str"), "version": Val(kind="int")}, "the per-host task (before connect)")):
+    # (arguments by position - datagram_received(self, data, addr) is asyncio's signature, _get_device(cls, ip, version, data) the task's -
+    # whatever the parameters are called)
+    for q, args, label in ((DG, [data, Val(kind="list")], "datagram_received"),
+                           (GETDEV, [Val(kind="str"), Val(kind="int"), data], "the per-host task (before connect)")):
         f = ctx.fn(q)
-        pnames = f.params
-        a = {k: v for k, v in args.items() if k in pnames}
+        pnames = f.params[1:] if f.kind in ("method", "classmethod", "property", "setter") else f.params
+        a = {k: v for k, v in zip(pnames, args)}
         _ret, esc = R.analyze(f, a, self_cls=f.cls)
         ctx.count("boundaries")
         bad = [e for e in esc if str(e) != "asyncio.CancelledError"]
